@@ -83,6 +83,8 @@ pub struct LspContext {
     codegen: Option<Arc<Mutex<CodegenContext>>>,
     parsing_source: Arc<Mutex<LspParsingSource>>,
     shutdown_manager: Arc<Mutex<ShutdownManager>>,
+    /// The files for which diagnostics were published last time, so they can be cleared when a file leaves the project
+    published_diagnostics: std::collections::HashSet<String>,
     #[cfg(test)]
     responses: Arc<Mutex<Vec<lsp_server::Response>>>,
 }
@@ -166,6 +168,7 @@ impl LspContext {
             codegen: None,
             parsing_source: Arc::new(Mutex::new(LspParsingSource::new())),
             shutdown_manager: Arc::new(Mutex::new(ShutdownManager::new())),
+            published_diagnostics: Default::default(),
             #[cfg(test)]
             responses: Arc::new(Mutex::new(vec![])),
         }
